@@ -426,7 +426,8 @@ class Evaluator:
     def spec(self, text, env=None, at=None):
         """term of a specification expression written in the repo's vocabulary."""
         try:
-            node = ast.parse(text, mode="eval").body
+            from .model import _CanonicalBranches
+            node = _CanonicalBranches().visit(ast.parse(text, mode="eval")).body
         except SyntaxError as e:
             raise AnalysisError(f"bad spec expression {text!r}: {e}")
         ev = self.with_bound(env or {})
